@@ -3,9 +3,10 @@ def run(tier, a=None):
     tg = tags(tier) if tier != 'quick' else ['SO2t', 'SE2t', 'SO3t', 'SE3t', 'R3t']
     specs = [{'src': 'h_c09.cpp', 'defs': ['TAG=' + t], 'maxpaths': 1024} for t in tg]
     specs += [{'src': 'h_c09.cpp', 'defs': ['TAG=Bnd<SE2t,SO3t,R3t>'], 'filter': 'c09_(sub|blk)_(compose|between|rplus|lplus|inverse|log|exp).*', 'maxpaths': 1024}]
+    if tier == 'quick': specs += [{'src': 'h_c09.cpp', 'defs': ['TAG=' + t], 'filter': 'c09_subsets_act.*', 'maxpaths': 64} for t in ('SE23t', 'SGal3t')]   # act() subsets are cheap on every group
     import props.common as pc
     _o = pc.opts
     pc.opts = lambda tier, a=None: dict(_o(tier, a), structural=True)
     return simple('C09', tier, a, specs,
         'EXACT on the recorded DAGs: for every operation with optional Jacobians all subsets of requested outputs give the same value and the same Jacobians as the all-outputs call; Jacobians bound to blocks of a larger matrix pre-filled with distinct symbols change exactly the block; argument coefficients are the same symbols before and after; aliased forms (X=X*X, X*=X, X=X.inverse(), view+=t, view=view*view) equal the unaliased computation; a call repeated after other library activity (first use of statics, other operations) returns the identical result. One symbolic run per path covers all inputs because access patterns do not depend on values.',
-        ['history independence: bounded to the interleaved activity executed in the harness (plus the static-initialisation argument of C14)', 'groups: ' + ','.join(tg) + ', Bundle<SE2,SO3,R3> (subset and block entries)'])
+        ['history independence: bounded to the interleaved activity executed in the harness (plus the static-initialisation argument of C14)', 'groups: ' + ','.join(tg) + ', Bundle<SE2,SO3,R3> (subset and block entries); quick tier: act() subsets additionally on SE_2_3 and SGal3'])
